@@ -530,6 +530,27 @@ def run_property(prop: str, tier: str, check: Callable, floors: Dict[str, int], 
         for o in notes:
             print(f"note: {o.rule} @ {o.construct} [{o.where}] {o.text} -- {o.facts}")
 
+    audit_result = None
+    if tier == "thorough" and not violations:
+        # sensitivity audit on scratch variants of this tree (figures only: the verdict above stands)
+        try:
+            from .audit import audit
+            import re as _re
+            anchors = set()
+            for o in col.obs:
+                for part in _re.split(r"[~,]", o.construct.split("#")[0]):
+                    part = part.strip()
+                    if _re.fullmatch(r"[A-Za-z_][\w]*(\.[A-Za-z_][\w]*)?", part):
+                        anchors.add(part.replace("sorting.", ""))
+            audit_result = audit(prop, Path(repo_root), anchors)
+            if not quiet:
+                a = audit_result
+                print(f"audit: recorded breakages reported {a['seeded']['reported']}/{a['seeded']['still_apply']}; "
+                      f"recorded refactors silent {a['benign']['silent']}/{a['benign']['still_apply']}; "
+                      f"mutants of anchor functions killed {a['mutants']['killed']}/{a['mutants']['sampled']} "
+                      f"(cannot decide {a['mutants']['cannot_decide']}, survived {len(a['mutants']['survived'])}; population {a['mutants']['population']})")
+        except Exception as e:      # the audit is auxiliary: never let it decide the run
+            audit_result = {"error": f"{type(e).__name__}: {e}"}
     wall = time.time() - t0
     if write_evidence:
         out_dir.mkdir(exist_ok=True)
@@ -566,6 +587,7 @@ def run_property(prop: str, tier: str, check: Callable, floors: Dict[str, int], 
                 "known_findings_matched": sorted(seen),
                 "notes": [o.to_json() for o in notes],
                 "all_obligations": [f"{o.key} :: {'holds' if o.ok else ('note' if o.note else 'FAILS')}" for o in col.obs],
+                **({"thorough_audit": audit_result} if audit_result is not None else {}),
                 "checker_cmd": f"python3-vt -m xsa check {prop} --tier {tier}",
                 "trusted_base": ["CPython ast module", "xsa engine (model, normaliser, CFG, reaching definitions, symbolic terms)",
                                  "Python data-model tables in xsa/pydata.py", "networkx (dominators, reachability)",
